@@ -396,6 +396,38 @@ def result_reaches(P, rep, F, call, rule, out_idx=None, elementwise=False):
                       key="%s|%s|result" % (rule, F.qn), witness="request with two or more values")
 
 
+def world_field_name(P):
+    """the name of the one `void *` data member of wrapper_cpp::WorldBuilderWrapper (the stored world)"""
+    names = set()
+    for F in P.funcs.values():
+        if F.body is None or not F.qn.startswith("wrapper_cpp::WorldBuilderWrapper::"):
+            continue
+        for ini in (F.inits or []):
+            if ini.get("n"):
+                names.add(ini["n"])
+        for x in F.walk():
+            if x.get("k") == "MemberExpr" and astq.is_this_field(P, x) and (x.get("t") or "").replace(" ", "") == "void*":
+                names.add(x.get("n"))
+    if len(names) != 1:
+        raise AnalysisBroken("WorldBuilderWrapper: %d candidate members for the stored world (%s)" % (len(names), sorted(names)))
+    return names.pop()
+
+
+def see_through_accessor(P, F, src):
+    """`accessor(x)` with a file-local `T *accessor(void *p) { return cast<T *>(p); }` stands for x"""
+    src = sc(src)
+    if src is not None and src.get("k") == "CallExpr" and P.d(src.get("callee")).get("k") == "Function":
+        hc = norm.helper_call(P, F, src)
+        if hc is not None:
+            params, body, args, G = hc
+            b0 = sc(body)
+            if b0 is not None and b0.get("k") == "UnaryOperator" and b0.get("op") == "*":
+                b0 = sc(b0["c"][0])
+            if len(params) == 1 and b0 is not None and b0.get("k") == "DeclRefExpr" and b0.get("r") == params[0]:
+                return sc(args[0])
+    return src
+
+
 def handle_cast(P, rep, F, call, rule, handle_idx):
     """receiver of the forwarding call is reinterpret_cast<World*>(handle parameter)"""
     me = call["c"][0]
@@ -421,8 +453,8 @@ def handle_cast(P, rep, F, call, rule, handle_idx):
             if len(params) == 1 and b0 is not None and b0.get("k") == "DeclRefExpr" and b0.get("r") == params[0]:
                 src = sc(args[0])
     if hk is None:
-        # C++ wrapper: the member ptr_ptr_world
-        ok = src is not None and astq.is_this_field(P, src, "ptr_ptr_world")
+        # C++ wrapper: its one void* member
+        ok = src is not None and astq.is_this_field(P, src, world_field_name(P))
     else:
         ok = src is not None and astq.is_ref_to(src, hk)
     if ok:
